@@ -85,11 +85,16 @@ def do_case(ctx, inp):
         return
     dim, method, axis, m = inp["dim"], inp["method"], inp.get("axis"), inp["m"]
     arr = pnd.integer_ndarray(np.array(m, dtype=np.int64))
+    # earlier compressions of the very same array object (a caller computing several weightings of one priority array):
+    # the judged call below must still answer for the array as the caller wrote it
+    for pm, pa in inp.get("pre", []):
+        arr.ndint_compress(method=pm, axis=pa) if dim > 1 else arr.ndint_compress(method=pm)
     res = arr.ndint_compress(method=method, axis=axis) if dim > 1 else arr.ndint_compress(method=method)
     res = np.asarray(res).tolist()
     flat = m if dim == 1 else [x for r in m for x in r] if dim == 2 else [x for s in m for r in s for x in r]
     nz = {abs(x) for x in flat if x != 0}
-    ctx.case(inp, nontrivial=len({x for x in flat if x != 0}) > 1, tags={f"dim-{dim}", f"method-{method}", f"axis-{axis}"})
+    ctx.case(inp, nontrivial=len({x for x in flat if x != 0}) > 1, tags={f"dim-{dim}", f"method-{method}", f"axis-{axis}"}
+             | ({"same-array-object-compressed-before"} if inp.get("pre") else set()))
     op = {"op": "compress", "dim": dim, "method": method, "m": m}
     if axis is not None: op["axis"] = axis
     # "r": the model that mirrors the code's plumbing; "spec": the key specification the C13 theorems are about
@@ -165,10 +170,16 @@ def run(ctx):
             do_case(ctx, {"dim": 1, "method": method, "m": [rng.choice(VALS) for _ in range(rng.randint(1, 6))]})
         elif r < 0.8:
             nr, nc = rng.randint(1, 4), rng.randint(1, 6)
-            do_case(ctx, {"dim": 2, "method": method, "axis": rng.choice([0, 1]),
-                          "m": [[rng.choice(VALS) for _ in range(nc)] for _ in range(nr)]})
+            case = {"dim": 2, "method": method, "axis": rng.choice([0, 1]),
+                    "m": [[rng.choice(VALS) for _ in range(nc)] for _ in range(nr)]}
+            if rng.random() < 0.35:
+                case["pre"] = [[rng.choice(METHODS), rng.choice([0, 1])] for _ in range(rng.randint(1, 2))]
+            do_case(ctx, case)
         else:
             if method in ("min", "max"): method = "shadow"
             n0, n1, n2 = rng.randint(1, 3), rng.randint(1, 3), rng.randint(1, 4)
-            do_case(ctx, {"dim": 3, "method": method, "axis": rng.choice([0, 1]),
-                          "m": [[[rng.choice(VALS) for _ in range(n2)] for _ in range(n1)] for _ in range(n0)]})
+            case = {"dim": 3, "method": method, "axis": rng.choice([0, 1]),
+                    "m": [[[rng.choice(VALS) for _ in range(n2)] for _ in range(n1)] for _ in range(n0)]}
+            if rng.random() < 0.35:
+                case["pre"] = [[rng.choice(["shadow", "prio", "rank", "first", "last"]), rng.choice([0, 1])] for _ in range(rng.randint(1, 2))]
+            do_case(ctx, case)
